@@ -20,7 +20,7 @@ EXPLORER = 'E (header variants x all 2^5 state-init presence combinations (+none
 RULE = ('headers: internal / external-in / external-out with address forms (std wc -128,-1,0,127; anycast depth 1 and 30; extern of 1, 8, 9, 255, 511 bits; none), '
         'amount boundaries 0, 1, 2^120-1, 0/1/2 extra currencies with 1-byte and 31-byte amounts, flag and lt/time boundaries; state-init: none and all 32 presence '
         'combinations of split_depth/special/code/data/library; body: for every (header, init) pair every bit length within +-2 of each threshold where a placement '
-        'flips, plus 0, 1, 1022, 1023, each with 0..4 references (thorough: EVERY bit length 0..1023 x 0..4 refs for six header/init pairs). Per message: serialize '
+        'flips, plus 0, 1, 1022, 1023, each with 0..4 references (thorough: EVERY bit length 0..1023 x 0..4 refs for EVERY header/init pair). Per message: serialize '
         'must not raise; the cell decodes under the bundled block.tlb (independent interpreter, every bit and reference consumed) to the same logical message; '
         'MessageAny.deserialize returns the same message; every other valid placement (init inline/ref x body inline/ref) written by the reference encoder parses '
         'to the same message. Wrappers (StateInit, TickTock, CurrencyCollection, ExtraCurrencyCollection, WalletV3Data, WalletV4Data, NftItemData, HashUpdate, '
@@ -37,7 +37,7 @@ NOT_ASSERTED = ['which valid placement the serialiser chooses (any encoding that
 
 
 def BOUNDS(tier):
-    return {'headers': len(headers()), 'state_init_shapes': 33, 'body_refs': [0, 1, 2, 3, 4], 'body_bits': 'threshold neighbourhoods (quick) / all 0..1023 for 6 pairs (thorough)', 'exhaustive': True}
+    return {'headers': len(headers()), 'state_init_shapes': 33, 'body_refs': [0, 1, 2, 3, 4], 'body_bits': 'threshold neighbourhoods (quick) / all 0..1023 for all 462 header x init pairs (thorough)', 'exhaustive': True}
 
 
 def REQUIRED_COVER(tier):
@@ -575,7 +575,8 @@ def shards(tier, seed):
         for p in range(2):
             out.append({'fn': 'shard_messages', 'args': {'hi': hi, 'part': p, 'parts': 2}, 'prio': 2})
     if tier == 'thorough':
-        for hi, ii in ((2, 29), (2, 0), (0, 32), (5, 29), (10, 32), (13, 5)):
-            for p in range(8):
-                out.append({'fn': 'shard_all_lengths', 'args': {'hi': hi, 'ii': ii, 'part': p, 'parts': 8}, 'prio': 1})
+        # EVERY body bit length 0..1023 x 0..4 references for EVERY (header, state-init) pair
+        for hi in range(len(headers())):
+            for ii in range(len(inits())):
+                out.append({'fn': 'shard_all_lengths', 'args': {'hi': hi, 'ii': ii, 'part': 0, 'parts': 1}, 'prio': 1})
     return out
